@@ -482,6 +482,7 @@ class Num(Val):
         self.idxseg = None      # 1-D integer index vector as pieces (n, first value, step +-1): arange and concatenations of aranges
         self.fsf = None         # exact value as a multiple of the sampling rate: value = fsf * sampling (sympy expression in the sizes)
         self.cover = None       # 1-D work buffers: what each piece holds (zeros / stored values / an earlier transform), see cover.py
+        self.c64 = False        # complex data held in single precision (complex64): `x.dtype == complex` is False for it
         self.fgrid = None       # 1-D frequency grid: element i = (a + b*i) * sampling, stored as sympy (a, b)
         self.intdt = False      # the value may be held in the INTEGER dtype of integer-typed input data (products can overflow)
         self.rowview = None     # this vector is the row view M[e] of a named local matrix: (name, index AST, {name: id(value)} of the index operands)
@@ -506,6 +507,7 @@ class Num(Val):
         c.intdt = self.intdt
         c.fsf = self.fsf
         c.fgrid = self.fgrid
+        c.c64 = self.c64
         c.cover = self.cover
         c.idxseg = self.idxseg
         return c
@@ -529,6 +531,7 @@ class Num(Val):
         n.base_uid = self.base_uid if self.base_uid is not None else self.uid
         for k, v in kw.items():
             setattr(n, k, v)
+        n.c64 = self.c64
         return n
 
     clone = copy
